@@ -3,8 +3,9 @@
 import ast
 
 from ..engine import rule
-from ..flow import PRUNE, Flags, Soft, Violation, explore, implied_atoms, \
-    path_ends, path_is, provenance, raising_node, store_value
+from ..flow import PRUNE, Flags, Soft, Violation, cmp_sides, explore, \
+    implied_atoms, path_ends, path_is, prov_has, provenance, raising_node, \
+    store_value
 from ..locks import POOL_WRITE, held_locks, lock_delta, step_held
 from ..model import dotted, walk_local
 from ..twopc import FS
@@ -673,3 +674,65 @@ def r8(R):
             R.violation(v.node, v.message, g, v.path)
     R.require(n >= 2, 'expected FileStorage.load and loadBefore to use the '
               'file pool')
+
+
+# ------------------------------------------------------------------ C08.R9
+@rule('C08.R9', 'the blob sweep of the wrapper storage judges only files '
+      'whose serial is not later than the last transaction committed when '
+      'the sweep began (a later file belongs to a commit in progress, whose '
+      'record cannot be loaded yet)', props=['C13'], min_instances=2)
+def r9(R):
+    cls = R.prog.cls('ZODB.blob.BlobStorage')
+    n = 0
+    for meth in ('_packUndoing', '_packNonUndoing'):
+        f = R.method(cls, meth)
+        g, b, F = R.cfg(f, cls, max_depth=1)
+        n += 1
+        R.instance('BlobStorage.%s' % meth)
+        # 1. a comparison serial-of-a-file  vs  last committed transaction
+        judged = False
+        helpers = set()
+        for node in (g.nodes[i] for i in g.reachable()):
+            if node.kind != 'test':
+                continue
+            for c in ast.walk(node.ast):
+                for l, op, r in cmp_sides(c):
+                    if op not in (ast.Gt, ast.GtE, ast.Lt, ast.LtE):
+                        continue
+                    pl = provenance(l, node.frame, F)
+                    pr = provenance(r, node.frame, F)
+                    if prov_has(pl, 'call', lambda p: p[-1] ==
+                                'splitBlobFilename') and prov_has(
+                                    pr, 'call', lambda p: p[-1] ==
+                                    'lastTransaction'):
+                        judged = True
+                        if node.frame.parent is not None:
+                            helpers.add(node.frame.func.name)
+        if not judged:
+            R.violation(
+                (f.module.relpath, f.qualname, 'files judged by the sweep'),
+                'BlobStorage.%s decides which blob files are garbage '
+                'without comparing their serial with the last transaction '
+                'committed when the sweep began: the file of a transaction '
+                'that is between storeBlob and tpc_finish (record not '
+                'loadable yet) is removed, and the transaction commits a '
+                'blob record without a file' % meth,
+                key='sweep judges files of the transaction in progress')
+            continue
+        # 2. what is removed file by file comes from the judged list, not
+        #    from a raw directory listing
+        for op in F.all_ops():
+            if op.kind != 'call' or not op.path or op.node.frame.parent \
+                    is not None:
+                continue
+            last = op.path[-1].split('.')[-1]
+            if last == 'remove_committed' and op.ast.args:
+                pv = provenance(op.ast.args[0], op.node.frame, F)
+                if helpers and not prov_has(
+                        pv, 'call', lambda p: p[-1] in helpers):
+                    R.violation(
+                        op.node, 'BlobStorage.%s removes `%s`, which does '
+                        'not come from the list of files older than the '
+                        'sweep\'s cutoff' % (meth, ast.unparse(
+                            op.ast.args[0])[:60]))
+    R.require(n >= 2, 'sweeps not found')
